@@ -30,7 +30,7 @@ type c14Spec struct {
 
 type c14Harness struct{}
 
-var c14Kinds = []string{"lifetime-expiry", "lifetime-expiry", "lifetime-host", "unique", "burst-sessions", "burst-sessions", "burst-receivers", "burst-receivers", "burst-conns", "msgsize", "msgrate", "reconnect-receivers", "iprate"}
+var c14Kinds = []string{"lifetime-expiry", "lifetime-expiry", "lifetime-host", "unique", "burst-sessions", "burst-sessions", "burst-receivers", "burst-receivers", "burst-conns", "msgsize", "msgrate", "reconnect-receivers", "iprate", "conns-after-expiry"}
 
 func (c14Harness) Gen(r *verifsim.SplitMix, tier string, idx int) any {
 	sp := c14Spec{Seed: r.Next(), SegMax: []int{64, 1400, 65536}[r.Intn(3)]}
@@ -57,6 +57,10 @@ func (c14Harness) Gen(r *verifsim.SplitMix, tier string, idx int) any {
 	case "reconnect-receivers":
 		sp.Limit = 2 + r.Intn(3)
 		sp.N = 2 + r.Intn(3) // newcomers tried after the reconnect
+	case "conns-after-expiry":
+		sp.Limit = 3 + r.Intn(3) // --max-ws-connections
+		sp.Timeout = []string{"2s", "4s"}[r.Intn(2)]
+		sp.N = 2 + r.Intn(4) // newcomers tried after the older session has expired
 	case "msgsize":
 		sp.Limit = []int{256, 1024, 4096, 0}[r.Intn(4)] // 0: no limit
 	case "msgrate":
@@ -125,6 +129,8 @@ func (c14Harness) Run(spec any) (res verifsim.RunResult) {
 		flags = append(flags, "--max-receivers-per-sender", fmt.Sprint(sp.Limit))
 	case "burst-conns":
 		flags = append(flags, "--max-ws-connections", fmt.Sprint(sp.Limit), "--max-receivers-per-sender", "0")
+	case "conns-after-expiry":
+		flags = append(flags, "--max-ws-connections", fmt.Sprint(sp.Limit), "--max-receivers-per-sender", "0", "--session-timeout", sp.Timeout, "--max-sessions", "0")
 	case "iprate":
 		flags = append(flags, "--session-creates-per-min", fmt.Sprint(sp.Rate), "--session-creates-burst", fmt.Sprint(sp.Limit),
 			"--ws-connects-per-min", fmt.Sprint(sp.Rate), "--ws-connects-burst", fmt.Sprint(sp.Limit), "--max-sessions", "0")
@@ -386,6 +392,91 @@ func (c14Harness) Run(spec any) (res verifsim.RunResult) {
 				}
 				if created < 1 {
 					addV("limit-refused-below-limit", "session-creates-burst", fmt.Sprintf("burst %d but no session could be created", sp.Limit))
+				}
+			})
+		case "conns-after-expiry":
+			// Two sessions of different age under a small --max-ws-connections: the older one
+			// expires (the server closes its connections) while the younger still has peers.
+			// Afterwards exactly the places the expired session held are free again - not more
+			// (a place given back twice), not fewer (a place never given back).
+			verifsim.Go("K", func() {
+				defer done.Add(1)
+				ttl, _ := time.ParseDuration(sp.Timeout)
+				t0 := time.Now()
+				type rc struct {
+					c   *websocket.Conn
+					log *wsLog
+				}
+				var openA, openB []rc
+				n := 0
+				dial := func(code, id, role string, into *[]rc) bool {
+					n++
+					st, c := try(fmt.Sprintf("10.0.4.%d", n), code, id, role)
+					if st != 101 {
+						return false
+					}
+					*into = append(*into, rc{c, w.startReader(fmt.Sprintf("K>c%d", n), c)})
+					return true
+				}
+				a, err := w.createSession("10.0.3.1", "")
+				if err != nil || a.Status != 201 {
+					addV("session-create-failed", sp.Kind, fmt.Sprintf("status=%d err=%v", a.Status, err))
+					return
+				}
+				if !dial(a.Code, "hostA", "sender", &openA) || !dial(a.Code, "ra", "receiver", &openA) {
+					addV("limit-refused-below-limit", sp.Kind, fmt.Sprintf("--max-ws-connections %d: one of the first two connections refused", sp.Limit))
+					return
+				}
+				time.Sleep(ttl / 2)
+				b, err := w.createSession("10.0.3.2", "")
+				if err != nil || b.Status != 201 {
+					addV("session-create-failed", sp.Kind, fmt.Sprintf("status=%d err=%v", b.Status, err))
+					return
+				}
+				if !dial(b.Code, "hostB", "sender", &openB) {
+					addV("limit-refused-below-limit", sp.Kind, "the second session's host refused")
+					return
+				}
+				for i := 0; len(openA)+len(openB) < sp.Limit; i++ {
+					if !dial(b.Code, fmt.Sprintf("rb%d", i), "receiver", &openB) {
+						addV("limit-refused-below-limit", sp.Kind, fmt.Sprintf("--max-ws-connections %d: connection %d refused", sp.Limit, len(openA)+len(openB)+1))
+						return
+					}
+				}
+				var extra []rc
+				if dial(b.Code, "over", "receiver", &extra) {
+					addV("limit-exceeded", "max-ws-connections", fmt.Sprintf("--max-ws-connections %d: connection %d admitted", sp.Limit, sp.Limit+1))
+					return
+				}
+				// the older session expires; its two connections are closed by the server
+				time.Sleep(time.Until(t0.Add(ttl + 300*time.Millisecond)))
+				closedA := 0
+				for _, o := range openA {
+					if _, closed := o.log.snapshot(); closed {
+						closedA++
+					}
+				}
+				res.Counters["expired_session_connections_closed"] += int64(closedA)
+				admitted := 0
+				for i := 0; i < sp.N; i++ {
+					if dial(b.Code, fmt.Sprintf("late%d", i), "receiver", &extra) {
+						admitted++
+					}
+					time.Sleep(10 * time.Millisecond)
+				}
+				time.Sleep(100 * time.Millisecond)
+				alive := 0
+				for _, o := range append(append([]rc(nil), openB...), extra...) {
+					if _, closed := o.log.snapshot(); !closed {
+						alive++
+					}
+				}
+				res.Counters["conns_after_expiry_runs"]++
+				if alive > sp.Limit {
+					addV("limit-exceeded", "max-ws-connections:after-another-session-expired", fmt.Sprintf("--max-ws-connections %d --session-timeout %s: after the older of two sessions expired (%d of its 2 connections closed), %d of %d newcomers were admitted to the younger one: %d connections open at once", sp.Limit, sp.Timeout, closedA, admitted, sp.N, alive))
+				}
+				if closedA == 2 && admitted < 2 && sp.N >= 2 {
+					addV("limit-refused-below-limit", "max-ws-connections:after-another-session-expired", fmt.Sprintf("--max-ws-connections %d: the expired session's 2 connections were closed but only %d newcomers were admitted", sp.Limit, admitted))
 				}
 			})
 		case "reconnect-receivers":
